@@ -83,7 +83,7 @@ func writerFingerprint(w *proto.Writer, pending []byte) uint64 {
 
 // C14 — the vectored writer emits exactly what was chained, once, in order.
 func C14(c *vk.Ctx) {
-	c.Rule("explicit-state search over all operation sequences of length <= n (quick 6, thorough 7) over the 13-operation alphabet {ChainBuffer appending 0/1/3/70 bytes or exactly the free capacity (buffer full at the next cut), ChainWrite of a 0/1/5-byte slice, Flush to a writer that accepts everything / fails after 0, 1, 4 bytes / reports a short write} x initial buffer capacity {0, 64, 1024, 4096}; every byte is position-unique; reference model = the byte string pending since the last flush; after every Flush the bytes delivered must be exactly pending (a prefix of it when the writer failed) and nothing delivered earlier may appear again. Plus path equivalence WriteBlock+Flush = EncodeBlock on a column corpus (fifteen columns incl. containers with rows whose LowCardinality / JSON element column is empty, strings of 1 KiB / 4 KiB / 70 KB followed by rows of other lengths, bare, in an array and as dictionary values, and the stateful LowCardinality / Array(LowCardinality) / Map(., LowCardinality) / JSON, with 3 rows and with zero rows); WriteColumn+Flush = EncodeColumn for every base column and every composition over Nothing at 255 / 256 / 1023 / 1024 / 1025 / 2048 / 4096 / 4097 / 8192 rows (thorough also 3072 / 16384 / 65536 / 131072). states = distinct private writer states (reflect fingerprint incl. buffer length, offset, vector shape); transitions = operations executed.")
+	c.Rule("explicit-state search over all operation sequences of length <= n (quick 6, thorough 7) over the 13-operation alphabet {ChainBuffer appending 0/1/3/70 bytes or exactly the free capacity (buffer full at the next cut), ChainWrite of a 0/1/5-byte slice, Flush to a writer that accepts everything / fails after 0, 1, 4 bytes / reports a short write} x initial buffer capacity {0, 64, 1024, 4096}; every byte is position-unique; reference model = the byte string pending since the last flush; after every Flush the bytes delivered must be exactly pending (a prefix of it when the writer failed) and nothing delivered earlier may appear again. Plus path equivalence WriteBlock+Flush = EncodeBlock on a column corpus (fifteen columns incl. containers with rows whose LowCardinality / JSON element column is empty, strings of 1 KiB / 4 KiB / 70 KB followed by rows of other lengths, bare, in an array and as dictionary values, and the stateful LowCardinality / Array(LowCardinality) / Map(., LowCardinality) / JSON, with 3 rows and with zero rows); the non-generic ColLowCardinalityRaw at its four key widths; WriteColumn+Flush = EncodeColumn for every base column and every composition over Nothing at 255 / 256 / 1023 / 1024 / 1025 / 2048 / 4096 / 4097 / 8192 rows (thorough also 3072 / 16384 / 65536 / 131072). states = distinct private writer states (reflect fingerprint incl. buffer length, offset, vector shape); transitions = operations executed.")
 	depth := 6
 	if !c.Quick() {
 		depth = 7
@@ -277,6 +277,67 @@ func C14(c *vk.Ctx) {
 				c.Violation("C14/path/write-differs-from-encode", fmt.Sprint("rev=", rev, "/rows=", rows), fmt.Sprintf("WriteBlock+Flush %s\nEncodeBlock %s", vk.Hex(sink.got), vk.Hex(eb.Buf)), nil)
 			}
 			c.Eval("path equivalence", 1)
+		}
+	}
+	// the non-generic LowCardinality column (not in the registry: it has no typed rows) at each of
+	// its four key widths: vectored path = buffer path, and the bytes decode back to the keys
+	if c.Shard == 0 || c.Only != "" {
+		for _, key := range []proto.CardinalityKey{proto.KeyUInt8, proto.KeyUInt16, proto.KeyUInt32, proto.KeyUInt64} {
+			for _, rows := range []int{1, 4, 1025} {
+				id := fmt.Sprintf("path-lcraw/key=%d/rows=%d", key, rows)
+				if c.Only != "" && c.Only != id {
+					continue
+				}
+				c.Current(id)
+				msg, fn := vk.Recover(func() {
+					idx := new(proto.ColStr)
+					for _, v := range []string{"zero", "one", "two"} {
+						idx.Append(v)
+					}
+					col := &proto.ColLowCardinalityRaw{Index: idx, Key: key}
+					var want []int
+					for i := 0; i < rows; i++ {
+						col.AppendKey((i*2 + i/3) % 3)
+						want = append(want, (i*2+i/3)%3)
+					}
+					var eb proto.Buffer
+					col.EncodeColumn(&eb)
+					sink := &sink14{failAt: -1}
+					w := proto.NewWriter(sink, new(proto.Buffer))
+					col.WriteColumn(w)
+					if _, err := w.Flush(); err != nil || !bytes.Equal(sink.got, eb.Buf) {
+						c.Violation("C14/path/write-column-differs/LowCardinalityRaw", id, fmt.Sprintf("WriteColumn+Flush gives %d bytes, EncodeColumn %d (first difference at %d, err %v)", len(sink.got), len(eb.Buf), firstDiff(sink.got, eb.Buf), err), nil)
+						return
+					}
+					back := &proto.ColLowCardinalityRaw{Index: new(proto.ColStr)}
+					if err := back.DecodeColumn(proto.NewReader(bytes.NewReader(sink.got)), rows); err != nil || back.Rows() != rows || back.Key != key {
+						c.Violation("C14/path/lcraw-decode", id, fmt.Sprintf("the written column does not decode back: err=%v rows=%d key=%d", err, back.Rows(), back.Key), nil)
+						return
+					}
+					for i, wk := range want {
+						var got int
+						switch key {
+						case proto.KeyUInt8:
+							got = int(back.Keys8[i])
+						case proto.KeyUInt16:
+							got = int(back.Keys16[i])
+						case proto.KeyUInt32:
+							got = int(back.Keys32[i])
+						default:
+							got = int(back.Keys64[i])
+						}
+						if got != wk {
+							c.Violation("C14/path/lcraw-decode", id, fmt.Sprintf("key %d decodes as %d, want %d", i, got, wk), nil)
+							return
+						}
+					}
+				})
+				if msg != "" {
+					c.Violation("C14/panic/"+fn, id, msg, nil)
+				}
+				c.Eval("path equivalence", 1)
+				c.DistinctN(1)
+			}
 		}
 	}
 	// path equivalence at row counts at and next to the chunk sizes a zero-copy writer may work
